@@ -53,12 +53,16 @@ def C11_1(ctx, facts):
     # candidates leave the queue in process_all only, and there in FIFO order: trace table (starts in queue order)
     patable.table(ctx, facts)
     m2 = 0
+    import c16
+    port_fns = {h.nkey for h in c16._port_fns(facts)}
     for g in facts.fns.values():
         if not g.nkey.startswith(("client::conn::dns::SocketAddrs", "<client::conn::dns::SocketAddrs")) or "sort_preferred" in g.nkey:
             continue
         import panics
         if any(nm_.endswith("SocketAddrs::sort_preferred") for nm_ in panics.owner_chain(g)):
             continue  # a private helper of sort_preferred: its effect on the list is decided by the C16.1 table
+        if any(nm_ in port_fns for nm_ in panics.owner_chain(g)) or g.nkey in port_fns:
+            continue  # the port-applying method (in place or rebuilding the list): its effect on the list is decided by the C16.4 port table
         for c in g.calls():
             tys = c.t.get("argtys") or [""]
             if tys[0].startswith("&mut std::collections::VecDeque<std::net::SocketAddr>"):
@@ -66,7 +70,7 @@ def C11_1(ctx, facts):
                 m = norm(c.name).split("::")[-1]
                 ctx.check(m in ("pop_front", "iter_mut", "into_iter", "clear"), "SocketAddrs.0|%s|%s" % (g.nkey.split("::")[-1], m), "address list consumed front to back (%s)" % m,
                           "address list mutated through %s" % norm(c.name), c.where())
-    ctx.floor("SocketAddrs.0|mutators", m2, 2, "mutating accesses to SocketAddrs.0 outside sort_preferred")
+    ctx.floor("SocketAddrs.0|mutators", m2, 1, "mutating accesses to SocketAddrs.0 outside sort_preferred and the port method")
     pop = facts.unit(facts.fn("client::conn::dns::SocketAddrs::pop"))
     ctx.check(any(c.matches(r"VecDeque.*::pop_front$") for c in pop.calls()), "SocketAddrs::pop|front", "SocketAddrs::pop takes the front element", "SocketAddrs::pop does not pop the front", pop.where())
     # the candidate loop of TcpConnecting::connect as a decision table (candloop.py): one attempt per address, in list order,
@@ -90,24 +94,9 @@ def C11_2_3_4(ctx, facts):
     ctx.floor("tasks.push|sites", len(starts), 1, "places that start attempts")
     other = [c for c in starts if c.fn.nkey not in home]
     ctx.check(not other, "tasks.push|only-in-process_all", "attempts are started only in process_all", "attempts also started in %s" % [c.fn.nkey for c in other])
-    j = facts.unit(facts.fn(JT), expand=True)
-    ctx.touched(j)
-    to = [c for c in j.calls() if c.is_("tokio::time::timeout", "tokio::time::timeout::timeout")]
-    jn = j.calls("happy_eyeballs::EyeballSet::join_next")
-    ctx.floor("join_next_with_timeout|timeout", len(to), 1, "tokio::time::timeout")
-    ctx.floor("join_next_with_timeout|join_next", len(jn), 2, "join_next calls (with / without delay)")
-    some_d = lambda lab: lab.kind == "variant" and lab.variants == {"Some"} and any(isinstance(e, dict) and e.get("n") == "delay" for e in lab.place["p"])
-    for c in to:
-        g, w = j.guarded(c.bb, some_d)
-        ctx.check(g, "join_next_with_timeout|when-delay", "the per-step timeout applies exactly when a delay is configured", "timeout not on the Some(delay) edge", c.where(), j.path_desc(w))
-        r0 = j.roots(c.args[0])
-        ctx.check(any("delay" in r.desc for r in r0 if r.kind in ("arg", "upvar")), "join_next_with_timeout|delay-value", "the step timeout is self.delay", "step timeout roots %s" % sorted(map(repr, sig(r0))), c.where())
-        r1 = j.roots(c.args[1], through_calls=False)
-        ctx.check(any(r.kind == "call" and r.site.is_("happy_eyeballs::EyeballSet::join_next") for r in r1), "join_next_with_timeout|wraps-join_next", "it wraps join_next()", "wraps %s" % sorted(map(repr, r1)), c.where())
-    tm = j.aggregates("happy_eyeballs::Eyeball", "Timeout")
-    for (b, i, s) in tm:
-        g, w = j.guarded(b, lambda lab: lab.kind == "variant" and lab.variants == {"Err"})
-        ctx.check(g, "join_next_with_timeout|Timeout-on-elapsed", "Eyeball::Timeout only on the elapsed edge", "Eyeball::Timeout on another edge", j.where(b), j.path_desc(w))
+    # the stagger wait itself - bounded by exactly the set's delay when one is configured, a plain wait otherwise, the elapsed
+    # bound being the only source of the "timed out" answer - is part of the trace table: the helper that implements it is spliced
+    # in (whatever its name and interface), `tokio::time::timeout` has its meaning, rows exist for delay = Some / None
 
 
 def C11_6(ctx, facts):
